@@ -89,6 +89,8 @@ def attrs_src(f, mode, order=None):
             args.append("reverse")
         if o["sel"] == "key":
             args.append("key = " + key_expr(a, f, mode))
+        if o["sel"] == "idkey":
+            args.append("key = $")              # the field itself, chosen explicitly
         if o["sel"] == "by":
             args.append("by = " + by_expr(a, f, mode))
         if args:
@@ -299,6 +301,12 @@ def random_cfg(rnd, p_plain=0.4):
     for a in attrs:
         name, rev, sel = rnd.choice(MATRIX_ORD if a in ("ord", "partial_ord") else MATRIX_EQ)
         c[a] = {"ign": name == "ign", "rev": rev, "sel": sel}
+    # `key = $` on a more specific attribute opts out of the key of a less specific one
+    if rnd.random() < 0.12:
+        lo, hi = rnd.choice([("ord", "partial_ord"), ("ord", "eq"), ("ord", "partial_eq"), ("ord", "hash"), ("eq", "partial_eq"), ("eq", "hash")])
+        c = plain()
+        c[lo] = {"ign": False, "rev": lo == "ord" and rnd.random() < 0.3, "sel": "key"}
+        c[hi] = {"ign": False, "rev": False, "sel": "idkey"}
     return c
 
 
@@ -348,7 +356,7 @@ def cfg_summary(P):
             bits = []
             for a in ATTRS:
                 o = f["cmp"][a]
-                x = ("i" if o["ign"] else "") + ("r" if o["rev"] else "") + {"none": "", "key": "k", "by": "b"}[o["sel"]]
+                x = ("i" if o["ign"] else "") + ("r" if o["rev"] else "") + {"none": "", "key": "k", "by": "b", "idkey": "d"}[o["sel"]]
                 if x:
                     bits.append("%s:%s" % (a, x))
             if bits:
